@@ -31,6 +31,7 @@ import (
 	"github.com/semihalev/sdns/internal/wire"
 	"github.com/semihalev/sdns/middleware"
 	"github.com/semihalev/sdns/middleware/defaults"
+	"github.com/semihalev/sdns/middleware/forwarder"
 	"github.com/semihalev/zlog/v2"
 )
 
@@ -88,6 +89,9 @@ type vkSrvCfg struct {
 	ECS       bool
 	ACL       []string // access list (nil = everyone)
 	DNS64     bool     // dns64 with the well-known prefix
+	// Forward: the real forwarder handler stands behind failover, configured with a scripted upstream on
+	// loopback (zz_verif_srv_fwd_test.go)
+	Forward bool
 }
 
 type vkSrvWorld struct {
@@ -97,6 +101,7 @@ type vkSrvWorld struct {
 	dir  string
 	udp  *net.UDPConn
 	spec vkSrvCfg
+	fwd  *vkFwdUp
 
 	// The owned transports recycle their job slabs (and the per-request slots inside them)
 	// from one client's query to the next; the harness does the same: ONE udp slab taken from
@@ -201,13 +206,24 @@ func vkNewSrvWorld(spec vkSrvCfg) *vkSrvWorld {
 		cfg.DNS64.Enabled = true
 		cfg.DNS64.Prefixes = []string{"64:ff9b::/96"}
 	}
+	var fwd *vkFwdUp
+	if spec.Forward {
+		if fwd, err = vkStartFwdUp(); err != nil {
+			panic(err)
+		}
+		cfg.ForwarderServers = []string{fwd.addr}
+		cfg.DNSSEC = "off"
+	}
 	up := &vkUp{script: map[string]func(*dns.Msg) *dns.Msg{}}
 	middleware.Reset()
 	defaults.RegisterUpTo("failover")
+	if spec.Forward {
+		middleware.Register("forwarder", func(c *config.Config) middleware.Handler { return forwarder.New(c) })
+	}
 	middleware.Register("vkupstream", func(*config.Config) middleware.Handler { return up })
 	p := middleware.DefaultRegistry.Build(cfg)
 	middleware.VerifAutoWire(p)
-	w := &vkSrvWorld{s: &Server{cfg: cfg, pipeline: p, inlineReady: true}, up: up, cfg: cfg, dir: dir, spec: spec}
+	w := &vkSrvWorld{s: &Server{cfg: cfg, pipeline: p, inlineReady: true}, up: up, cfg: cfg, dir: dir, spec: spec, fwd: fwd}
 	pc, err := net.ListenUDP("udp", &net.UDPAddr{IP: net.IPv4(127, 0, 0, 1)})
 	if err != nil {
 		panic(err)
@@ -217,6 +233,9 @@ func vkNewSrvWorld(spec vkSrvCfg) *vkSrvWorld {
 }
 
 func (w *vkSrvWorld) close() {
+	if w.fwd != nil {
+		w.fwd.stop()
+	}
 	_ = w.udp.Close()
 	for _, h := range w.s.pipeline.Handlers() {
 		if st, ok := h.(interface{ Stop() }); ok {
